@@ -1,4 +1,5 @@
-From GV Require Import Common.Outcome C15.Model C15.Spec C15.Lemmas C15.Proofs C15.ProofsGc C15.ProofsOnce.
+From GV Require Import Common.Outcome C15.Model C15.Spec C15.Lemmas C15.Proofs C15.ProofsGc C15.ProofsOnce
+  C15.EppModel C15.EppSpec C15.EppProofs.
 
 Theorem C15_build_implicit_order_insensitive_refuted : build_implicit_order_insensitive_refuted_stmt.
 Proof. exact build_implicit_order_insensitive_refuted. Qed.
@@ -67,3 +68,23 @@ Print Assumptions C15_once_init_linearizable.
 Theorem C15_once_init_progress : once_init_progress_stmt.
 Proof. exact once_init_progress. Qed.
 Print Assumptions C15_once_init_progress.
+
+Theorem C15_validate_epp_order_insensitive : validate_epp_order_insensitive_stmt.
+Proof. exact validate_epp_order_insensitive. Qed.
+Print Assumptions C15_validate_epp_order_insensitive.
+
+Theorem C15_validate_epp_min_spec : validate_epp_min_spec_stmt.
+Proof. exact validate_epp_min_spec. Qed.
+Print Assumptions C15_validate_epp_min_spec.
+
+Theorem C15_validate_epp_min_is_source_order : validate_epp_min_is_source_order_stmt.
+Proof. exact validate_epp_min_is_source_order. Qed.
+Print Assumptions C15_validate_epp_min_is_source_order.
+
+Theorem C15_validate_epp_first_found_refuted : validate_epp_first_found_refuted_stmt.
+Proof. exact validate_epp_first_found_refuted. Qed.
+Print Assumptions C15_validate_epp_first_found_refuted.
+
+Theorem C15_validate_epp_first_found_sensitive : validate_epp_first_found_sensitive_stmt.
+Proof. exact validate_epp_first_found_sensitive. Qed.
+Print Assumptions C15_validate_epp_first_found_sensitive.
